@@ -480,8 +480,8 @@ func TestSpoolX(t *testing.T) {
 	stdlog.SetOutput(ioutil.Discard)
 	logrus.SetOutput(ioutil.Discard)
 	work := filepath.Join(out, "spoolxwork")
-	if st, err := os.Stat("/dev/shm"); err == nil && st.IsDir() {
-		if d, err := ioutil.TempDir("/dev/shm", "verif-spoolx-"); err == nil {
+	if st, err := os.Stat(hx.ShmBase()); err == nil && st.IsDir() {
+		if d, err := ioutil.TempDir(hx.ShmBase(), "verif-spoolx-"); err == nil {
 			work = d
 		}
 	}
